@@ -57,6 +57,56 @@ def drv_mw(name):
     return entry, out.blocks, O.oracle(name)
 
 
+def parts_desc(lib):
+    out = []
+    for b in lib.blocks:
+        if isinstance(b, Entry):
+            out.append(("Entry", [[p.first, p.von, p.last, p.jr] if isinstance(p, N.NameParts) else p for p in b.fields[0].value]))
+        else:
+            out.append((type(b).__name__, None))
+    return out
+
+
+def drv_reuse(n1, n2):
+    """one SplitNameParts instance on two libraries: the second result equals that of a fresh instance"""
+    mk_lib = lambda n: Library([Entry("article", "k", [Field("author", [n, FIRST])]), Entry("book", "j", [Field("editor", [n])])])
+    mw = N.SplitNameParts(allow_inplace_modification=True)
+    r1 = parts_desc(mw.transform(mk_lib(n1)))
+    r2 = parts_desc(mw.transform(mk_lib(n2)))
+    f1 = parts_desc(N.SplitNameParts(allow_inplace_modification=True).transform(mk_lib(n1)))
+    f2 = parts_desc(N.SplitNameParts(allow_inplace_modification=True).transform(mk_lib(n2)))
+    return r1, f1, r2, f2
+
+
+def task_reuse(L1, L2):
+    eng = Engine()
+    rec = Recorder(eng)
+    n1 = eng.sym_str("a", L1, "Ab ,{}")
+    n2 = eng.sym_str("b", L2, "Ab ,{}")
+    E = eng.I.models.eq_simple
+    worlds = eng.run(drv_reuse, [n1, n2])
+
+    def rp(m):
+        import logging
+        logging.disable(logging.CRITICAL)
+        a, b = eng.model_str(m, n1), eng.model_str(m, n2)
+        try:
+            r1, f1, r2, f2 = drv_reuse(a, b)
+        except Exception as ex:  # noqa
+            return {"input": [a, b], "observed": f"raised {type(ex).__name__}: {ex}", "expected": "no exception"}
+        if r1 == f1 and r2 == f2:
+            return None
+        return {"input": [a, b], "observed": {"second library through the same instance": r2}, "expected": f2}
+    for W in worlds:
+        if W.exc is not None:
+            rec.require(W, True, "reuse-no-exception", rp)
+            continue
+        r1, f1, r2, f2 = W.result
+        rec.require(W, b_not(b_and(E(r1, f1), E(r2, f2))), "instance-holds-no-state", rp)
+        rec.witness("instance-reused", W)
+    return rec.result(worlds=len(worlds))
+
+
 def native_parts(name):
     try:
         p = N.parse_single_name_into_parts(name)
@@ -274,7 +324,7 @@ def main():
         "strict mode only (strict=True, the middleware's mode)",
         "oracle = checks/names_oracle.py, validated against the 149 BibTeX-derived cases of tests/middleware_tests/test_names.py on every run",
     ]
-    chk.expected_vacuity = ["von-nonempty", "jr-nonempty", "invalid-name", "middleware-error-block"]
+    chk.expected_vacuity = ["von-nonempty", "jr-nonempty", "invalid-name", "middleware-error-block", "instance-reused"]
     n, bad = conformance()
     chk.conformance = n
     if bad:
@@ -294,6 +344,9 @@ def main():
         spread("mw", task_mw, L, LM, SIGMA_BRACE)
     for L in range(5, 0, -1):
         chk.add_task(f"recall-L{L}", task_recall, L=L, sigma=SIGMA_PART)
+    chk.bounds["one instance, two libraries"] = "SplitNameParts on two libraries in a row (author and editor fields), names of length 1..3 each (3+3 at thorough only) over 'Ab ,{}'"
+    for L1, L2 in ((3, 2), (2, 3), (1, 3), (2, 2)) + (((3, 3),) if chk.tier == "thorough" else ()):
+        chk.add_task(f"reuse-{L1}+{L2}", task_reuse, L1=L1, L2=L2)
     # word-structured names with one braced group (2-3 words, the group in every position, ' ' and ', ' separators)
     GL = 4 if chk.tier == "quick" else 5
     chk.bounds["braced-word family"] = f"2..3 words joined by ' ' or ', ', one of them '{{' + 1..{GL} characters over {GROUP_SIGMA!r} + '}}' (optionally followed by a letter), the others one letter over {{A,b}}"
